@@ -209,11 +209,14 @@ func (t *Task) Schedule(executeAt time.Time) *Task {
 	t.lock.Lock()
 	defer t.lock.Unlock()
 
-	t.executeAt = executeAt
-
 	if executeAt.IsZero() {
+		// Take the task out of all lists before its time is cleared. The schedule
+		// handler reads the time of listed tasks under the schedule lock only and
+		// takes a zero time as due: a listed task must never carry one.
 		t.removeFromQueues()
+		t.executeAt = executeAt
 	} else {
+		t.executeAt = executeAt
 		t.addToSchedule(false)
 	}
 	return t
